@@ -9,7 +9,7 @@ A call is a tuple; see harness/src/ext_wapi.rs for the token format.
   ("IMG", guid) ("ISET", field, arg-token) ("IVIS", fmt, data, w, h, mask|None)
   ("IPIN"|"ISPH"|"ICYL", fmt, data, props-token, mask|None) ("IFIN",) ("IDROP",) ("FIN",)
 Strings are Python str (UTF-8 encoded into hex tokens)."""
-import struct
+import os, struct
 from fractions import Fraction
 from vlib import core, gen
 
@@ -458,15 +458,77 @@ def big_stack_driver():
     return path
 
 
-def run_all(cases):
-    """cases: list of call lists.  Returns list of dicts(impl, rel, model)."""
-    impl = core.ensure_harness("debug")
-    rel = core.ensure_harness("release")
+import re
+_HEX_RUN = re.compile(r"[0-9a-f]+")
+_F32_TOK = re.compile(r"(?:\bf|[=/,:]f|F/|F/[0-9a-f-]+/)([0-9a-f]{8})(?![0-9a-f])")
+
+
+def float_patterns(text):
+    """bit patterns that may occur as floats in a case: every maximal hex run of exactly 16 digits
+    (f64; hashes and short blobs are harmless extras), and 8-digit runs in f32 positions"""
+    s64 = {h for h in _HEX_RUN.findall(text) if len(h) == 16}
+    s32 = set(_F32_TOK.findall(text))
+    for m in re.finditer(r"F/([0-9a-f]{8}|-)/([0-9a-f]{8}|-)", text):
+        s32.update(x for x in m.groups() if x != "-")
+    return s64, s32
+
+
+def canon32(b):
+    return 0x7fc00000 if (b & 0x7f800000 == 0x7f800000 and b & 0x007fffff) else b
+
+
+def run_all(cases, stats=None):
+    """cases: list of call lists.  Returns list of dicts(impl, rel, model).
+    The model produces the whole file itself (kind WAPIF: XML from XmlGen.gen_root, float texts from the
+    FDISPLAY oracle table of the harness); only when a float text is missing from the table the XML bytes
+    are borrowed from the implementation's file (kind WAPI, the old mode)."""
+    from props import c04
+    impl = os.environ.get("WAPI_HARNESS") or core.ensure_harness("debug")
+    rel = os.environ.get("WAPI_HARNESS") or core.ensure_harness("release")
     lines = [case_line(c) for c in cases]
     o_impl = core.run_cases(impl, lines)
     o_rel = core.run_cases(rel, lines)
-    mlines = [model_line(c, split_out(o)[3]) for c, o in zip(cases, o_impl)]
-    o_model = core.run_cases(big_stack_driver(), mlines)
+    fd = c04.Fdisplay(impl)
+    per_case = []
+    all64, all32 = set(), set()
+    for line, o in zip(lines, o_impl):
+        a, b = float_patterns(line + " " + o.split(" | xml=")[0])
+        a = {"%016x" % canon64(int(x, 16)) for x in a}
+        b = {"%08x" % canon32(int(x, 16)) for x in b}
+        per_case.append((a, b))
+        all64 |= a
+        all32 |= b
+    fd.ensure(all64, all32)
+    version = c04.crate_version().encode().hex()
+
+    def mline(i):
+        a, b = per_case[i]
+        t64 = ",".join("%s=%s" % (x, fd.t64[x]) for x in sorted(a) if x in fd.t64)
+        t32 = ",".join("%s=%s" % (x, fd.t32[x]) for x in sorted(b) if x in fd.t32)
+        return "WAPIF V:%s T64:%s T32:%s %s" % (version, t64, t32, " ".join(call_tok(x) for x in cases[i]))
+
+    o_model = core.run_cases(big_stack_driver(), [mline(i) for i in range(len(cases))])
+    # a float the model computes itself (a bound of scaled integers or widened singles) whose text was not
+    # collected: ask the oracle for exactly that pattern and run the case again
+    for _ in range(12):
+        todo = [i for i, m in enumerate(o_model) if m.startswith("missing-float ")]
+        if not todo:
+            break
+        for i in todo:
+            k = o_model[i].split()[1]
+            per_case[i][0 if len(k) == 16 else 1].add(k)
+        fd.ensure({k for i in todo for k in per_case[i][0]}, {k for i in todo for k in per_case[i][1]})
+        for i, m in zip(todo, core.run_cases(big_stack_driver(), [mline(i) for i in todo])):
+            o_model[i] = m
+    fallback = [i for i, m in enumerate(o_model) if m.startswith("missing-float")]
+    if fallback:
+        fl = [model_line(cases[i], split_out(o_impl[i])[3]) for i in fallback]
+        for i, m in zip(fallback, core.run_cases(big_stack_driver(), fl)):
+            o_model[i] = m
+    if stats is not None:
+        stats.update(whole_file_from_model=len(cases) - len(fallback), xml_borrowed_fallback=len(fallback),
+                     float_texts_in_oracle_table=len(fd.t64) + len(fd.t32), float_oracle_violations=len(fd.bad))
+        stats["_fd_bad"] = fd.bad[:5]
     return [dict(impl=a, rel=b, model=m) for a, b, m in zip(o_impl, o_rel, o_model)]
 
 
